@@ -61,6 +61,8 @@ class Verifier:
         self.obl_names = set()
         self.inlined = set()
         self.facts_used = set()
+        self.at_hits = set()
+        self.auto_inlined = set()
         self.dropped = set()
         self.paths = 0
         self.entry_args = {}
@@ -214,6 +216,11 @@ class Verifier:
         except Exception as e:  # engine bug: never a verdict
             res.status = "error"
             res.reason = "%s: %s\n%s" % (type(e).__name__, e, traceback.format_exc())
+        if res.status == "ok":
+            missing = [p_ for p_ in getattr(c, "at", {}) if p_ not in self.at_hits]
+            if missing:
+                res.status = "rejected"
+                res.reason = "program-point assertion(s) no longer match any statement: %s" % missing
         res.paths = self.paths
         res.trivial = self.trivial
         res.inlined = sorted(self.inlined)
